@@ -3,6 +3,7 @@ package main
 import (
 	"context"
 	"fmt"
+	"google.golang.org/grpc"
 	"os"
 	"path/filepath"
 	"sort"
@@ -42,6 +43,10 @@ type BTWorld struct {
 	SendYield bool
 	closed    bool
 	rows      []*yRows // every engine handle handed out (closed at Destroy)
+	// set for the gRPC transport world: requests go through a real loopback connection
+	rdata  btpb.BigtableServer
+	radmin btapb.BigtableTableAdminServer
+	conn   *grpc.ClientConn
 }
 
 func scratchDir(prefix string) string {
@@ -81,10 +86,35 @@ func NewBTWorld(r *Run, engine string, clk *Clock, dir string) *BTWorld {
 		}
 		w.srv = srv
 		w.svc = srv.VerifService()
+	case engLdbMemGRPC:
+		opt.Storage = yStorage{bttest.LeveldbMemStorage{}, &w.rows}
+		srv, err := bttest.NewServerWithOptions("127.0.0.1:0", opt)
+		if err != nil {
+			harnessErr("NewServerWithOptions: %v", err)
+		}
+		w.srv = srv
+		w.svc = srv.VerifService()
+		w.conn = dialLoopback(srv.Addr)
+		w.rdata = &remoteData{c: btpb.NewBigtableClient(w.conn)}
+		w.radmin = &remoteAdmin{c: btapb.NewBigtableTableAdminClient(w.conn)}
 	default:
 		harnessErr("unknown engine %q", engine)
 	}
 	return w
+}
+
+func (w *BTWorld) data() btpb.BigtableServer {
+	if w.rdata != nil {
+		return w.rdata
+	}
+	return w.svc.Data()
+}
+
+func (w *BTWorld) admin() btapb.BigtableTableAdminServer {
+	if w.radmin != nil {
+		return w.radmin
+	}
+	return w.svc.Admin()
 }
 
 // Close shuts the instance down cleanly (the disk directory is kept).
@@ -93,6 +123,9 @@ func (w *BTWorld) Close() {
 		return
 	}
 	w.closed = true
+	if w.conn != nil {
+		w.conn.Close()
+	}
 	if w.srv != nil {
 		w.srv.Close()
 	} else {
@@ -371,7 +404,7 @@ func (w *BTWorld) yieldMarshal() { hookYield("grpc.marshal") }
 func (w *BTWorld) MutateRow(table string, key string, muts []*btpb.Mutation) error {
 	req := &btpb.MutateRowRequest{}
 	wire(&btpb.MutateRowRequest{TableName: table, RowKey: []byte(key), Mutations: muts}, req)
-	resp, err := w.svc.Data().MutateRow(context.Background(), req)
+	resp, err := w.data().MutateRow(context.Background(), req)
 	w.yieldMarshal()
 	if err == nil {
 		wire(resp, &btpb.MutateRowResponse{})
@@ -393,7 +426,7 @@ func (w *BTWorld) MutateRows(table string, entries []entryIn) ([]codes.Code, err
 	req := &btpb.MutateRowsRequest{}
 	wire(in, req)
 	st := &mutateStream{w: w}
-	err := w.svc.Data().MutateRows(req, st)
+	err := w.data().MutateRows(req, st)
 	if err != nil {
 		return nil, err
 	}
@@ -431,7 +464,7 @@ func (w *BTWorld) ReadRows(req *btpb.ReadRowsRequest) readResult {
 	r2 := &btpb.ReadRowsRequest{}
 	wire(req, r2)
 	st := &readStream{w: w}
-	err := w.svc.Data().ReadRows(r2, st)
+	err := w.data().ReadRows(r2, st)
 	rows, bad := decodeChunks(st.msgs)
 	if err != nil && bad != nil {
 		bad = nil // a failed stream may end anywhere
@@ -450,7 +483,7 @@ func (w *BTWorld) ReadRow(table, key string) readResult {
 func (w *BTWorld) CheckAndMutate(table, key string, pred *btpb.RowFilter, tm, fm []*btpb.Mutation) (bool, error) {
 	req := &btpb.CheckAndMutateRowRequest{}
 	wire(&btpb.CheckAndMutateRowRequest{TableName: table, RowKey: []byte(key), PredicateFilter: pred, TrueMutations: tm, FalseMutations: fm}, req)
-	resp, err := w.svc.Data().CheckAndMutateRow(context.Background(), req)
+	resp, err := w.data().CheckAndMutateRow(context.Background(), req)
 	w.yieldMarshal()
 	if err != nil {
 		return false, err
@@ -463,7 +496,7 @@ func (w *BTWorld) CheckAndMutate(table, key string, pred *btpb.RowFilter, tm, fm
 func (w *BTWorld) RMW(table, key string, rules []*btpb.ReadModifyWriteRule) (*ORow, error) {
 	req := &btpb.ReadModifyWriteRowRequest{}
 	wire(&btpb.ReadModifyWriteRowRequest{TableName: table, RowKey: []byte(key), Rules: rules}, req)
-	resp, err := w.svc.Data().ReadModifyWriteRow(context.Background(), req)
+	resp, err := w.data().ReadModifyWriteRow(context.Background(), req)
 	w.yieldMarshal()
 	if err != nil {
 		return nil, err
@@ -486,7 +519,7 @@ func (w *BTWorld) RMW(table, key string, rules []*btpb.ReadModifyWriteRule) (*OR
 
 func (w *BTWorld) SampleRowKeys(table string) ([]*btpb.SampleRowKeysResponse, error) {
 	st := &sampleStream{w: w}
-	err := w.svc.Data().SampleRowKeys(&btpb.SampleRowKeysRequest{TableName: table}, st)
+	err := w.data().SampleRowKeys(&btpb.SampleRowKeysRequest{TableName: table}, st)
 	return st.msgs, err
 }
 
@@ -499,7 +532,7 @@ func (w *BTWorld) CreateTable(parent, id string, fams map[string]*btapb.GcRule) 
 	}
 	req := &btapb.CreateTableRequest{}
 	wire(&btapb.CreateTableRequest{Parent: parent, TableId: id, Table: t}, req)
-	resp, err := w.svc.Admin().CreateTable(context.Background(), req)
+	resp, err := w.admin().CreateTable(context.Background(), req)
 	w.yieldMarshal()
 	if err != nil {
 		return nil, err
@@ -510,7 +543,7 @@ func (w *BTWorld) CreateTable(parent, id string, fams map[string]*btapb.GcRule) 
 }
 
 func (w *BTWorld) GetTable(name string) (*btapb.Table, error) {
-	resp, err := w.svc.Admin().GetTable(context.Background(), &btapb.GetTableRequest{Name: name})
+	resp, err := w.admin().GetTable(context.Background(), &btapb.GetTableRequest{Name: name})
 	w.yieldMarshal()
 	if err != nil {
 		return nil, err
@@ -521,7 +554,7 @@ func (w *BTWorld) GetTable(name string) (*btapb.Table, error) {
 }
 
 func (w *BTWorld) ListTables(parent string) ([]string, error) {
-	resp, err := w.svc.Admin().ListTables(context.Background(), &btapb.ListTablesRequest{Parent: parent})
+	resp, err := w.admin().ListTables(context.Background(), &btapb.ListTablesRequest{Parent: parent})
 	w.yieldMarshal()
 	if err != nil {
 		return nil, err
@@ -537,7 +570,7 @@ func (w *BTWorld) ListTables(parent string) ([]string, error) {
 }
 
 func (w *BTWorld) DeleteTable(name string) error {
-	_, err := w.svc.Admin().DeleteTable(context.Background(), &btapb.DeleteTableRequest{Name: name})
+	_, err := w.admin().DeleteTable(context.Background(), &btapb.DeleteTableRequest{Name: name})
 	w.yieldMarshal()
 	return err
 }
@@ -545,7 +578,7 @@ func (w *BTWorld) DeleteTable(name string) error {
 func (w *BTWorld) ModifyFamilies(name string, mods []*btapb.ModifyColumnFamiliesRequest_Modification) (*btapb.Table, error) {
 	req := &btapb.ModifyColumnFamiliesRequest{}
 	wire(&btapb.ModifyColumnFamiliesRequest{Name: name, Modifications: mods}, req)
-	resp, err := w.svc.Admin().ModifyColumnFamilies(context.Background(), req)
+	resp, err := w.admin().ModifyColumnFamilies(context.Background(), req)
 	w.yieldMarshal()
 	if err != nil {
 		return nil, err
@@ -564,7 +597,7 @@ func (w *BTWorld) DropRowRange(name string, prefix []byte, all bool) error {
 	}
 	r2 := &btapb.DropRowRangeRequest{}
 	wire(req, r2)
-	_, err := w.svc.Admin().DropRowRange(context.Background(), r2)
+	_, err := w.admin().DropRowRange(context.Background(), r2)
 	w.yieldMarshal()
 	return err
 }
